@@ -46,6 +46,7 @@ struct GMGPolarVerif {
     const SourceTerm& source() { return *s.source_term_; }
     const BoundaryConditions& boundary() { return *s.boundary_conditions_; }
     std::vector<int>& threads() { return s.threads_per_level_; }
+    const ExactSolution* exact() { return s.exact_solution_.get(); }
     int chooseLevels(const PolarGrid& g, int max_levels) { s.max_levels_ = max_levels; return s.chooseNumberOfLevels(g); }
 };
 
@@ -473,6 +474,20 @@ static int mode_solve(int cases, int nr_exp)
                o.kv["postSmoothingSteps"].c_str(), o.kv["maxIterations"].c_str(), hex(atof(o.kv["absoluteTolerance"].c_str())).c_str(), hex(atof(o.kv["relativeTolerance"].c_str())).c_str(),
                o.kv["residualNormType"].c_str(), g.numberOfIterations(), hex(g.meanResidualReductionFactor()).c_str(), hex(indep).c_str(), v.norms().empty() ? "-" : hex(v.norms().front()).c_str(), (int)finite, v.norms().size(),
                o.str().c_str(), render_trace(v).c_str());
+        // C20: the reported error figures are a function of the solve — after an early stop they describe the returned solution
+        if (v.exact() && g.numberOfIterations() < atoi(o.kv["maxIterations"].c_str()) && (o.kv["absoluteTolerance"] != "-1" || o.kv["relativeTolerance"] != "-1")) {
+            const PolarGrid& gr = g.grid();
+            long double s2 = 0; double mx = 0;
+            for (int i = 0; i < gr.nr(); i++) for (int j = 0; j < gr.ntheta(); j++) {
+                double r = gr.radius(i), th = gr.theta(j);
+                double e = v.exact()->exact_solution(r, th, sin(th), cos(th)) - g.solution()[gr.index(i, j)];
+                s2 += (long double)e * e; mx = std::max(mx, std::abs(e));
+            }
+            double w = (double)(sqrtl(s2) / sqrtl((long double)gr.numberOfNodes()));
+            auto a = g.exactErrorWeightedEuclidean(), b = g.exactErrorInfinity();
+            printf("ORC case=%d reported_error_l2=%s recomputed_error_l2=%s reported_error_inf=%s recomputed_error_inf=%s threads=%s opts=[%s]\n", c, hex(a ? *a : -1.0).c_str(), hex(w).c_str(), hex(b ? *b : -1.0).c_str(),
+                   hex(mx).c_str(), o.kv["maxOpenMPThreads"].c_str(), o.str().c_str());
+        }
         // C01 also holds for a repeated solve() on the same object (no setup() in between): same convergence within the budget
         if (c % 3 == 0 && atoi(o.kv["maxIterations"].c_str()) >= 100 && extrap != 2) {
             int it1 = g.numberOfIterations();
